@@ -27,21 +27,31 @@ Proof. eexists. reflexivity. Qed.
 Lemma alloc_new_valid h v sh dt wr mp : valid (fst (alloc h v sh dt wr mp)) (snd (alloc h v sh dt wr mp)).
 Proof. unfold valid, alloc. simpl. rewrite app_length. simpl. lia. Qed.
 Lemma alloc_get_new h v sh dt wr mp :
-  get_obj (fst (alloc h v sh dt wr mp)) (snd (alloc h v sh dt wr mp)) = mkObj (length (bufs h)) 0 sh dt wr mp.
+  get_obj (fst (alloc h v sh dt wr mp)) (snd (alloc h v sh dt wr mp)) = mkObj (length (bufs h)) 0 sh dt wr mp [].
 Proof. unfold get_obj, alloc. simpl. rewrite app_nth2 by lia. now rewrite Nat.sub_diag. Qed.
-Lemma view_grows h b off sh : grows h (fst (alloc_view h b off sh)).
+Lemma view_grows h b off sh mk : grows h (fst (alloc_view h b off sh mk)).
 Proof. eexists. reflexivity. Qed.
-Lemma view_new_valid h b off sh : valid (fst (alloc_view h b off sh)) (snd (alloc_view h b off sh)).
+Lemma view_new_valid h b off sh mk : valid (fst (alloc_view h b off sh mk)) (snd (alloc_view h b off sh mk)).
 Proof. unfold valid, alloc_view. simpl. rewrite app_length. simpl. lia. Qed.
-Lemma view_get_new h b off sh :
-  get_obj (fst (alloc_view h b off sh)) (snd (alloc_view h b off sh))
-  = mkObj (o_buf b) (o_off b + off) sh (o_dt b) (o_wr b) (o_map b).
+Lemma view_get_new h b off sh mk :
+  get_obj (fst (alloc_view h b off sh mk)) (snd (alloc_view h b off sh mk))
+  = mkObj (o_buf b) (o_off b + off) sh (o_dt b) (o_wr b) (o_map b) mk.
 Proof. unfold get_obj, alloc_view. simpl. rewrite app_nth2 by lia. now rewrite Nat.sub_diag. Qed.
 
 (* ------------------------------------------------------------------ reads: concrete = specification *)
-Lemma firstn_skipn_map {A B} (f : A -> B) n k l :
-  firstn n (skipn k (map f l)) = map f (firstn n (skipn k l)).
-Proof. now rewrite skipn_map, firstn_map. Qed.
+Lemma chunks_map {A B} (f : A -> B) bs : forall d v, chunks bs d (map f v) = map (map f) (chunks bs d v).
+Proof. induction d as [|d IH]; intros v; [reflexivity|]. cbn [chunks map]. now rewrite firstn_map, skipn_map, IH. Qed.
+Lemma rev_ax_map {A B} (f : A -> B) : forall rmask rsh v, rev_ax rmask rsh (map f v) = map f (rev_ax rmask rsh v).
+Proof.
+  induction rmask as [|m rm IH]; intros rsh v; [reflexivity|].
+  destruct rsh as [|d rs]; [reflexivity|]. cbn [rev_ax].
+  rewrite chunks_map, map_map.
+  rewrite (map_ext (fun x => rev_ax rm rs (map f x)) (fun x => map f (rev_ax rm rs x))) by (intros; apply IH).
+  rewrite <- (map_map (rev_ax rm rs) (map f)).
+  destruct m; [rewrite <- map_rev|]; now rewrite concat_map.
+Qed.
+Lemma pick_map {A B} (f : A -> B) mk sh off l : pick mk sh off (map f l) = map f (pick mk sh off l).
+Proof. unfold pick. now rewrite skipn_map, firstn_map, rev_ax_map. Qed.
 
 Lemma proxy_read_abs h f p dt sl :
   proxy_read h f p dt sl =
@@ -52,11 +62,11 @@ Lemma proxy_read_abs h f p dt sl :
   end.
 Proof.
   unfold proxy_read, abs_kind, spec_read.
-  destruct (sel_off sl (p_shape p)) as [[sh off]|] eqn:Es.
+  destruct (sel_off sl (p_shape p)) as [[[sh off] mk]|] eqn:Es.
   - destruct (length (f_vals f) <? size (p_shape p))%nat eqn:El.
     + rewrite Es. reflexivity.
     + destruct (scaledp p) eqn:Esc.
-      * rewrite Es. unfold scale_vals. rewrite firstn_skipn_map.
+      * rewrite Es. unfold scale_vals. rewrite pick_map.
         destruct dt as [d|].
         -- destruct (dtype_eqb d F8) eqn:Ed.
            ++ apply dtype_eqb_eq in Ed. subst d. rewrite orb_true_r, andb_false_r. reflexivity.
@@ -107,7 +117,7 @@ Definition read_ok (h : heap) (own : option nat) (h' : heap) (r : nat) : Prop :=
 Lemma spec_read_ok h sh vals ndt sc mp dt sl h' r :
   spec_read h sh vals ndt sc mp dt sl = inl (h', r) -> grows h h' /\ valid h' r.
 Proof.
-  unfold spec_read. destruct (sel_off sl sh) as [[sh' off]|]; [|discriminate].
+  unfold spec_read. destruct (sel_off sl sh) as [[[sh' off] mk]|]; [|discriminate].
   destruct (match dt with None => true | Some d => dtype_eqb d ndt end); intros E; inversion E; subst;
     (split; [apply alloc_grows|apply alloc_new_valid]).
 Qed.
@@ -128,7 +138,7 @@ Qed.
 Lemma getitem_ok st sl h' r : wf st -> getitem st sl = inl (h', r) -> grows (c_heap st) h' /\ valid h' r.
 Proof.
   intros (_ & _ & _ & Wo) E. unfold getitem in E. destruct (c_dobj st) as [o|p] eqn:Ed.
-  - destruct (sel_off sl _) as [[sh off]|]; inversion E; subst.
+  - destruct (sel_off sl _) as [[[sh off] mk]|]; inversion E; subst.
     split; [apply view_grows|apply view_new_valid].
   - rewrite proxy_read_abs in E.
     destruct (abs_kind (DProxy p) (c_file st)); try discriminate.
@@ -140,14 +150,14 @@ Qed.
 Lemma spec_read_dtype h sh vals ndt sc mp d sl h' r :
   spec_read h sh vals ndt sc mp (Some d) sl = inl (h', r) -> o_dt (get_obj h' r) = d.
 Proof.
-  unfold spec_read. destruct (sel_off sl sh) as [[sh' off]|]; [|discriminate].
+  unfold spec_read. destruct (sel_off sl sh) as [[[sh' off] mk]|]; [|discriminate].
   destruct (dtype_eqb d ndt) eqn:Ed; intros E; inversion E; subst.
-  - pose proof (alloc_get_new h (firstn (size sh') (skipn off vals)) sh' ndt
-                              (match sl with SFull => true | SLast1 => false end || sc)
-                              (match sl with SFull => true | SLast1 => false end && mp && negb sc)) as G.
+  - pose proof (alloc_get_new h (pick mk sh' off vals) sh' ndt
+                              (is_full sl || sc)
+                              (is_full sl && mp && negb sc)) as G.
     simpl in G. unfold get_obj. simpl. unfold get_obj in G. simpl in G. rewrite G. simpl.
     apply dtype_eqb_eq in Ed. now symmetry.
-  - pose proof (alloc_get_new h (firstn (size sh') (skipn off vals)) sh' d true false) as G.
+  - pose proof (alloc_get_new h (pick mk sh' off vals) sh' d true false) as G.
     unfold get_obj in *. simpl in *. rewrite G. reflexivity.
 Qed.
 
@@ -183,14 +193,16 @@ Proof.
   - eapply grows_valid; eauto.
 Qed.
 
-(* ------------------------------------------------------------------ one step *)
-Lemma step_refines st o :
+Lemma fdata_refines b st c dt :
   wf st ->
-  sstep (abs st) o = (abs (fst (cstep st o)), data_out (snd (cstep st o))) /\ wf (fst (cstep st o)).
+  s_fdata_step b (abs st) c dt = (abs (fst (fdata_step b st c dt)), data_out (snd (fdata_step b st c dt)))
+  /\ wf (fst (fdata_step b st c dt)).
 Proof.
-  intros W. pose proof W as (Wf & Wd & Wl & Wo).
-  destruct o; cbn [cstep sstep].
-  - (* GetFdata *)
+  intros W. pose proof W as (Wf & Wd & Wl & Wo). unfold fdata_step, s_fdata_step.
+  set (brk := b && negb (is_arr (c_dobj st))).
+  assert (Hb : b && negb (s_is_arr (s_kind (abs st))) = brk).
+  { unfold brk, abs; cbn [s_kind]. destruct (c_dobj st) as [o|p]; [reflexivity|].
+    unfold abs_kind. destruct (length (f_vals (c_file st)) <? size (p_shape p))%nat; [|destruct (scaledp p)]; reflexivity. }
     destruct (negb (is_float dt)); [split; [reflexivity|assumption]|].
     change (s_cache (abs st)) with
       (match c_fcache st with Some k => Some (k, o_dt (get_obj (c_heap st) k)) | None => None end).
@@ -199,7 +211,7 @@ Proof.
       * cbn. split.
         -- rewrite abs_with_heap_last by (auto using grows_refl). reflexivity.
         -- apply wf_with_heap_last; auto using grows_refl.
-      * rewrite <- asanyarray_abs.
+      * rewrite Hb. destruct brk; [split; [reflexivity|assumption]|]. rewrite <- asanyarray_abs.
         destruct (asanyarray st (Some dt)) as [[h r]|e] eqn:Ea; [|split; [reflexivity|assumption]].
         destruct (asanyarray_ok _ _ _ _ W Ea) as [G V].
         pose proof (asanyarray_dtype _ _ _ _ Ea) as Dt.
@@ -212,7 +224,7 @@ Proof.
               ** inversion E'; subst; assumption.
               ** eapply grows_valid; eauto.
         -- split; [now rewrite abs_with_heap_last|now apply wf_with_heap_last].
-    + rewrite <- asanyarray_abs.
+    + rewrite Hb. destruct brk; [split; [reflexivity|assumption]|]. rewrite <- asanyarray_abs.
       destruct (asanyarray st (Some dt)) as [[h r]|e] eqn:Ea; [|split; [reflexivity|assumption]].
       destruct (asanyarray_ok _ _ _ _ W Ea) as [G V].
       pose proof (asanyarray_dtype _ _ _ _ Ea) as Dt.
@@ -225,6 +237,17 @@ Proof.
            ++ inversion E'; subst; assumption.
            ++ eapply grows_valid; eauto.
       * split; [now rewrite abs_with_heap_last|now apply wf_with_heap_last].
+Qed.
+
+(* ------------------------------------------------------------------ one step *)
+Lemma step_refines st o :
+  wf st ->
+  sstep (abs st) o = (abs (fst (cstep st o)), data_out (snd (cstep st o))) /\ wf (fst (cstep st o)).
+Proof.
+  intros W. pose proof W as (Wf & Wd & Wl & Wo).
+  destruct o; cbn [cstep sstep].
+  - (* GetFdata *) apply fdata_refines; exact W.
+  - (* FdataBroken *) apply fdata_refines; exact W.
   - (* AsArray *)
     rewrite <- asanyarray_abs.
     destruct (asanyarray st None) as [[h r]|e] eqn:Ea; [|split; [reflexivity|assumption]].
@@ -349,20 +372,25 @@ Qed.
 Definition keeps (dt : dtype) (o : op) : bool :=
   match o with
   | Uncache => false
-  | GetFdata Fill d => dtype_eqb d dt || negb (is_float d)
+  | GetFdata Fill d | FdataBroken Fill d => dtype_eqb d dt || negb (is_float d)
   | _ => true
   end.
 
 Lemma s_cache_kept st o k dt :
   s_cache st = Some (k, dt) -> keeps dt o = true -> s_cache (fst (sstep st o)) = Some (k, dt).
 Proof.
-  intros Hc Hk. destruct o; cbn [sstep]; try exact Hc; try discriminate.
-  - (* GetFdata *)
-    destruct (negb (is_float dt0)) eqn:Hf; [exact Hc|].
-    rewrite Hc. destruct (dtype_eqb dt dt0) eqn:Ed; [exact Hc|].
+  intros Hc Hk.
+  assert (FD : forall b c d, (c = Fill -> dtype_eqb d dt || negb (is_float d) = true) ->
+                             s_cache (fst (s_fdata_step b st c d)) = Some (k, dt)).
+  { intros b c d Hkk. unfold s_fdata_step.
+    destruct (negb (is_float d)) eqn:Hf; [exact Hc|].
+    rewrite Hc. destruct (dtype_eqb dt d) eqn:Ed; [exact Hc|].
     destruct c.
-    + cbn [keeps] in Hk. rewrite Hf, orb_false_r, dtype_eqb_sym, Ed in Hk. discriminate.
-    + destruct (spec_fresh st (Some dt0)) as [[h r]|e]; exact Hc.
+    + specialize (Hkk eq_refl). rewrite orb_false_r, dtype_eqb_sym, Ed in Hkk. discriminate.
+    + destruct (if b && negb (s_is_arr (s_kind st)) then inr EUnreadable else spec_fresh st (Some d)) as [[h r]|e]; exact Hc. }
+  destruct o; cbn [sstep]; try exact Hc; try discriminate.
+  - apply FD. intros ->. exact Hk.
+  - apply FD. intros ->. exact Hk.
   - destruct (spec_fresh st None) as [[h r]|e]; exact Hc.
   - destruct (spec_slice st sl) as [[h r]|e]; exact Hc.
   - destruct (s_last st) as [l|]; [|exact Hc]. destruct (o_wr _); exact Hc.
@@ -372,7 +400,7 @@ Qed.
 
 Lemma s_cache_hit st c k dt :
   s_cache st = Some (k, dt) -> is_float dt = true -> snd (sstep st (GetFdata c dt)) = OArr k.
-Proof. intros Hc Hf. cbn [sstep]. rewrite Hf, Hc, dtype_eqb_refl. reflexivity. Qed.
+Proof. intros Hc Hf. cbn [sstep]. unfold s_fdata_step. rewrite Hf, Hc, dtype_eqb_refl. reflexivity. Qed.
 
 Lemma s_cache_identity : forall ops st k dt,
   s_cache st = Some (k, dt) -> is_float dt = true -> forallb (keeps dt) ops = true ->
@@ -407,7 +435,7 @@ Proof.
   intros W Hx. destruct (step_refines st (GetFdata Fill dt) W) as [E _].
   assert (Hs : s_cache (fst (sstep (abs st) (GetFdata Fill dt))) = Some (r, dt)).
   { assert (Hx' : snd (sstep (abs st) (GetFdata Fill dt)) = OArr r) by (rewrite E; cbn [snd]; rewrite Hx; reflexivity).
-    clear E. cbn [sstep] in *. destruct (negb (is_float dt)); [discriminate|].
+    clear E. cbn [sstep] in *. unfold s_fdata_step in *. cbn [andb] in *. destruct (negb (is_float dt)); [discriminate|].
     destruct (s_cache (abs st)) as [[k d]|] eqn:Hc.
     - destruct (dtype_eqb d dt) eqn:Ed.
       + cbn in *. inversion Hx'; subst. apply dtype_eqb_eq in Ed. subst. exact Hc.
@@ -430,7 +458,7 @@ Lemma hext_refl h : hext h h.
 Proof. split; exists []; now rewrite app_nil_r. Qed.
 Lemma alloc_hext h v sh dt wr mp : hext h (fst (alloc h v sh dt wr mp)).
 Proof. split; eexists; reflexivity. Qed.
-Lemma view_hext h b off sh : hext h (fst (alloc_view h b off sh)).
+Lemma view_hext h b off sh mk : hext h (fst (alloc_view h b off sh mk)).
 Proof. split; [eexists; reflexivity|exists []; cbn; now rewrite app_nil_r]. Qed.
 Lemma alloc_fresh h v sh dt wr mp : fresh h (fst (alloc h v sh dt wr mp)) (snd (alloc h v sh dt wr mp)).
 Proof. split; [reflexivity|]. unfold buf_of. now rewrite alloc_get_new. Qed.
@@ -445,34 +473,34 @@ Proof.
 Qed.
 
 Lemma obj_vals_alloc h v sh dt wr mp :
-  obj_vals (fst (alloc h v sh dt wr mp)) (mkObj (length (bufs h)) 0 sh dt wr mp) = firstn (size sh) v.
-Proof. unfold obj_vals, alloc; cbn. rewrite app_nth2 by lia. now rewrite Nat.sub_diag. Qed.
+  obj_vals (fst (alloc h v sh dt wr mp)) (mkObj (length (bufs h)) 0 sh dt wr mp []) = firstn (size sh) v.
+Proof. unfold obj_vals, pick, alloc; cbn. rewrite app_nth2 by lia. now rewrite Nat.sub_diag. Qed.
 
 Lemma spec_read_cases h sh vals ndt sc mp dt sl h' r :
   spec_read h sh vals ndt sc mp dt sl = inl (h', r) ->
-  exists sh' off, sel_off sl sh = Some (sh', off) /\ hext h h' /\ fresh h h' r
+  exists sh' off mk, sel_off sl sh = Some (sh', off, mk) /\ hext h h' /\ fresh h h' r
     /\ o_shape (get_obj h' r) = sh'
-    /\ obj_vals h' (get_obj h' r) = firstn (size sh') (skipn off vals).
+    /\ obj_vals h' (get_obj h' r) = firstn (size sh') (pick mk sh' off vals).
 Proof.
-  unfold spec_read. destruct (sel_off sl sh) as [[sh' off]|]; [|discriminate].
-  intros E. exists sh', off. split; [reflexivity|].
-  set (v := firstn (size sh') (skipn off vals)) in *.
+  unfold spec_read. destruct (sel_off sl sh) as [[[sh' off] mk]|]; [|discriminate].
+  intros E. exists sh', off, mk. split; [reflexivity|].
+  set (v := pick mk sh' off vals) in *.
   destruct (match dt with None => true | Some d => dtype_eqb d ndt end).
-  - set (wr := (match sl with SFull => true | SLast1 => false end || sc)) in *.
-    set (mp' := (match sl with SFull => true | SLast1 => false end && mp && negb sc)) in *.
+  - set (wr := (is_full sl || sc)) in *.
+    set (mp' := (is_full sl && mp && negb sc)) in *.
     assert (Eh : h' = fst (alloc h v sh' ndt wr mp')) by (inversion E; reflexivity).
     assert (Er : r = snd (alloc h v sh' ndt wr mp')) by (inversion E; reflexivity).
     rewrite Eh, Er. clear E Eh Er.
     split; [apply alloc_hext|]. split; [apply alloc_fresh|].
     rewrite alloc_get_new. split; [reflexivity|].
-    rewrite obj_vals_alloc. unfold v. rewrite firstn_firstn, Nat.min_id. reflexivity.
+    rewrite obj_vals_alloc. reflexivity.
   - set (d := match dt with Some d => d | None => ndt end) in *.
     assert (Eh : h' = fst (alloc h v sh' d true false)) by (inversion E; reflexivity).
     assert (Er : r = snd (alloc h v sh' d true false)) by (inversion E; reflexivity).
     rewrite Eh, Er. clear E Eh Er.
     split; [apply alloc_hext|]. split; [apply alloc_fresh|].
     rewrite alloc_get_new. split; [reflexivity|].
-    rewrite obj_vals_alloc. unfold v. rewrite firstn_firstn, Nat.min_id. reflexivity.
+    rewrite obj_vals_alloc. reflexivity.
 Qed.
 
 Lemma spec_fresh_cases st dt h r : spec_fresh st dt = inl (h, r) ->
@@ -485,7 +513,7 @@ Proof.
       * split; [apply hext_refl|right; eauto].
       * split; [apply alloc_hext|left; apply alloc_fresh].
     + intros E; inversion E; subst. split; [apply hext_refl|right; eauto].
-  - intros E. apply spec_read_cases in E as (sh' & off & _ & Hx & Hf & _). auto.
+  - intros E. apply spec_read_cases in E as (sh' & off & mk & _ & Hx & Hf & _). auto.
 Qed.
 
 Lemma spec_slice_cases st sl h r : spec_slice st sl = inl (h, r) ->
@@ -493,10 +521,10 @@ Lemma spec_slice_cases st sl h r : spec_slice st sl = inl (h, r) ->
   (fresh (s_heap st) h r \/ (exists own, s_kind st = SArr own /\ buf_of h r = buf_of (s_heap st) own)).
 Proof.
   unfold spec_slice. destruct (s_kind st) as [own|sh vals ndt sc mp|sh] eqn:Ek.
-  - destruct (sel_off sl _) as [[sh off]|]; [|discriminate]. intros E; inversion E; subst.
+  - destruct (sel_off sl _) as [[[sh off] mk]|]; [|discriminate]. intros E; inversion E; subst.
     split; [apply view_hext|right]. exists own. split; [reflexivity|].
-    exact (f_equal o_buf (view_get_new (s_heap st) (get_obj (s_heap st) own) off sh)).
-  - intros E. apply spec_read_cases in E as (sh' & off & _ & Hx & Hf & _). auto.
+    exact (f_equal o_buf (view_get_new (s_heap st) (get_obj (s_heap st) own) off sh mk)).
+  - intros E. apply spec_read_cases in E as (sh' & off & mk & _ & Hx & Hf & _). auto.
   - destruct (sel_off sl sh); discriminate.
 Qed.
 
@@ -523,22 +551,27 @@ Proof.
   { intros h r st' Eh Hx Hc. unfold s_alias_rule. rewrite Eh. split.
     - intros r' E; inversion E; subst r'. exact Hc.
     - split; [apply Hx|]. intros b Hb _. now apply hext_nth_buf. }
-  destruct o; cbn [sstep]; try (apply Same; intros; discriminate).
-  - (* GetFdata *)
+  assert (FD : forall b c dt, s_alias_rule st o (fst (s_fdata_step b st c dt)) (snd (s_fdata_step b st c dt))).
+  { intros b c dt. unfold s_fdata_step.
     destruct (negb (is_float dt)); [apply Same; intros; discriminate|].
     destruct (s_cache st) as [[k d]|] eqn:Ec.
     + destruct (dtype_eqb d dt).
       * cbn [fst snd]. apply (Read (s_heap st)); [reflexivity|apply hext_refl|]. right; left; eauto.
-      * destruct (spec_fresh st (Some dt)) as [[h r]|e] eqn:Ef; [|apply Same; intros; discriminate].
+      * destruct (b && negb (s_is_arr (s_kind st))); [apply Same; intros; discriminate|].
+        destruct (spec_fresh st (Some dt)) as [[h r]|e] eqn:Ef; [|apply Same; intros; discriminate].
         apply spec_fresh_cases in Ef as [Hx [Hf|(own & Ek & Er & Eh)]].
         -- destruct c; cbn [fst snd]; apply (Read h); try reflexivity; auto.
         -- subst. destruct c; cbn [fst snd]; apply (Read (s_heap st)); try reflexivity; auto;
              right; right; right; eauto.
-    + destruct (spec_fresh st (Some dt)) as [[h r]|e] eqn:Ef; [|apply Same; intros; discriminate].
+    + destruct (b && negb (s_is_arr (s_kind st))); [apply Same; intros; discriminate|].
+      destruct (spec_fresh st (Some dt)) as [[h r]|e] eqn:Ef; [|apply Same; intros; discriminate].
       apply spec_fresh_cases in Ef as [Hx [Hf|(own & Ek & Er & Eh)]].
       * destruct c; cbn [fst snd]; apply (Read h); try reflexivity; auto.
       * subst. destruct c; cbn [fst snd]; apply (Read (s_heap st)); try reflexivity; auto;
-          right; right; right; eauto.
+          right; right; right; eauto. }
+  destruct o; cbn [sstep]; try (apply Same; intros; discriminate).
+  - apply FD.
+  - apply FD.
   - (* AsArray *)
     destruct (spec_fresh st None) as [[h r]|e] eqn:Ef; [|apply Same; intros; discriminate].
     apply spec_fresh_cases in Ef as [Hx [Hf|(own & Ek & Er & Eh)]].
@@ -598,10 +631,15 @@ Qed.
 (* ------------------------------------------------------------------ (b) uncached reads reflect the file *)
 Lemma s_kind_step st o : s_kind (fst (sstep st o)) = s_kind st.
 Proof.
-  destruct o; cbn [sstep]; try reflexivity.
-  - destruct (negb (is_float dt)); [reflexivity|].
+  assert (FD : forall b c dt, s_kind (fst (s_fdata_step b st c dt)) = s_kind st).
+  { intros b c dt. unfold s_fdata_step. destruct (negb (is_float dt)); [reflexivity|].
     destruct (match s_cache st with Some (k, d) => if dtype_eqb d dt then Some k else None | None => None end);
-      [reflexivity|]. destruct (spec_fresh st (Some dt)) as [[h r]|e]; [destruct c|]; reflexivity.
+      [reflexivity|].
+    destruct (if b && negb (s_is_arr (s_kind st)) then inr EUnreadable else spec_fresh st (Some dt)) as [[h r]|e];
+      [destruct c|]; reflexivity. }
+  destruct o; cbn [sstep]; try reflexivity.
+  - apply FD.
+  - apply FD.
   - destruct (spec_fresh st None) as [[h r]|e]; reflexivity.
   - destruct (spec_slice st sl) as [[h r]|e]; reflexivity.
   - destruct (s_last st); [|reflexivity]. destruct (o_wr _); reflexivity.
@@ -627,22 +665,23 @@ Definition s_uncached (st : sstate) (o : op) : option slicer :=
 
 Definition s_reflects (sh : list nat) (vals : list Z) (st : sstate) (o : op) (st' : sstate) (x : out) : Prop :=
   forall sl r, s_uncached st o = Some sl -> x = OArr r ->
-    exists sh' off, sel_off sl sh = Some (sh', off) /\ r = length (objs (s_heap st))
+    exists sh' off mk, sel_off sl sh = Some (sh', off, mk) /\ r = length (objs (s_heap st))
       /\ o_shape (get_obj (s_heap st') r) = sh'
-      /\ obj_vals (s_heap st') (get_obj (s_heap st') r) = firstn (size sh') (skipn off vals).
+      /\ obj_vals (s_heap st') (get_obj (s_heap st') r) = firstn (size sh') (pick mk sh' off vals).
 
 Lemma s_reflects_step sh vals ndt sc mp st o :
   s_kind st = SProxy sh vals ndt sc mp -> s_reflects sh vals st o (fst (sstep st o)) (snd (sstep st o)).
 Proof.
   intros Ek.
   assert (R : forall dt sl h r st', s_heap st' = h -> spec_read (s_heap st) sh vals ndt sc mp dt sl = inl (h, r) ->
-              exists sh' off, sel_off sl sh = Some (sh', off) /\ r = length (objs (s_heap st))
+              exists sh' off mk, sel_off sl sh = Some (sh', off, mk) /\ r = length (objs (s_heap st))
                 /\ o_shape (get_obj (s_heap st') r) = sh'
-                /\ obj_vals (s_heap st') (get_obj (s_heap st') r) = firstn (size sh') (skipn off vals)).
-  { intros dt sl h r st' Eh E. rewrite Eh. apply spec_read_cases in E as (sh' & off & Es & _ & [Hr _] & Hs & Hv).
-    exists sh', off. auto. }
+                /\ obj_vals (s_heap st') (get_obj (s_heap st') r) = firstn (size sh') (pick mk sh' off vals)).
+  { intros dt sl h r st' Eh E. rewrite Eh. apply spec_read_cases in E as (sh' & off & mk & Es & _ & [Hr _] & Hs & Hv).
+    exists sh', off, mk. auto. }
   intros sl r Hu Hx. destruct o; cbn [s_uncached] in Hu; try discriminate; cbn [sstep] in *.
   - (* GetFdata *)
+    unfold s_fdata_step in *. cbn [andb] in *.
     destruct (is_float dt); [|discriminate]. cbn [negb] in *.
     assert (Miss : match s_cache st with Some (k, d) => if dtype_eqb d dt then Some k else None | None => None end = None
                    /\ sl = SFull).
@@ -690,9 +729,9 @@ Definition file_view (p : pspec) (f : file) : list Z :=
 
 Definition reflects (p : pspec) (f : file) (st : cstate) (o : op) (st' : cstate) (x : out) : Prop :=
   forall sl r, c_uncached st o = Some sl -> x = OArr r ->
-    exists sh' off, sel_off sl (p_shape p) = Some (sh', off) /\ r = length (objs (c_heap st))
+    exists sh' off mk, sel_off sl (p_shape p) = Some (sh', off, mk) /\ r = length (objs (c_heap st))
       /\ o_shape (get_obj (c_heap st') r) = sh'
-      /\ obj_vals (c_heap st') (get_obj (c_heap st') r) = firstn (size sh') (skipn off (file_view p f)).
+      /\ obj_vals (c_heap st') (get_obj (c_heap st') r) = firstn (size sh') (pick mk sh' off (file_view p f)).
 
 Lemma reflects_all ops st p :
   wf st -> c_dobj st = DProxy p -> (size (p_shape p) <= length (f_vals (c_file st)))%nat ->
@@ -707,8 +746,8 @@ Proof.
   destruct Ek as (ndt & sc & mp & Ek).
   apply (all_transfer (s_reflects (p_shape p) (file_view p (c_file st))) (reflects p (c_file st))); [|exact W|].
   - intros st0 o W0 H sl r Hu Hx. rewrite <- uncached_abs in Hu.
-    destruct (H sl r Hu) as (sh' & off & H1 & H2 & H3 & H4); [rewrite Hx; reflexivity|].
-    exists sh', off. auto.
+    destruct (H sl r Hu) as (sh' & off & mk & H1 & H2 & H3 & H4); [rewrite Hx; reflexivity|].
+    exists sh', off, mk. auto.
   - apply (s_all_lift (fun s => s_kind s = SProxy (p_shape p) (file_view p (c_file st)) ndt sc mp)); [|exact Ek].
     intros s o Hk. split; [eapply s_reflects_step; eassumption|]. now rewrite s_kind_step.
 Qed.
@@ -768,12 +807,17 @@ Qed.
 Lemma cstep_dobj_file st o :
   c_dobj (fst (cstep st o)) = c_dobj st /\ c_file (fst (cstep st o)) = c_file st.
 Proof.
-  destruct o; cbn [cstep]; try (split; reflexivity).
-  - destruct (negb (is_float dt)); [split; reflexivity|].
+  assert (FD : forall b c dt, c_dobj (fst (fdata_step b st c dt)) = c_dobj st
+                              /\ c_file (fst (fdata_step b st c dt)) = c_file st).
+  { intros b c dt. unfold fdata_step. destruct (negb (is_float dt)); [split; reflexivity|].
     destruct (match c_fcache st with
               | Some k => if dtype_eqb (o_dt (get_obj (c_heap st) k)) dt then Some k else None
               | None => None end); [split; reflexivity|].
-    destruct (asanyarray st (Some dt)) as [[h r]|e]; [destruct c|]; split; reflexivity.
+    destruct (if b && negb (is_arr (c_dobj st)) then inr EUnreadable else asanyarray st (Some dt)) as [[h r]|e];
+      [destruct c|]; split; reflexivity. }
+  destruct o; cbn [cstep]; try (split; reflexivity).
+  - apply FD.
+  - apply FD.
   - destruct (asanyarray st None) as [[h r]|e]; split; reflexivity.
   - destruct (getitem st sl) as [[h r]|e]; split; reflexivity.
   - destruct (c_last st); [destruct (o_wr _)|]; split; reflexivity.
@@ -807,8 +851,46 @@ Proof.
     replace (length (f_vals (c_file st)) <? size (p_shape p))%nat with false
       by (symmetry; apply Nat.ltb_ge; exact Hlen).
     rewrite Es, dtype_eqb_refl, Em, Eg. cbn [andb negb].
-    set (v := firstn _ _).
+    set (v := pick _ _ _ _). cbn [is_full andb].
     exists (fst (alloc (c_heap st) v (p_shape p) (p_dt p) true true)),
            (snd (alloc (c_heap st) v (p_shape p) (p_dt p) true true)).
     split; [reflexivity|]. split; [reflexivity|]. rewrite alloc_get_new. split; reflexivity.
+Qed.
+
+(* ------------------------------------------------------------------ a refused operation changes nothing *)
+Lemma refused_noop st o e : snd (cstep st o) = ORefused e -> fst (cstep st o) = st.
+Proof.
+  assert (FD : forall b c dt, snd (fdata_step b st c dt) = ORefused e -> fst (fdata_step b st c dt) = st).
+  { intros b c dt. unfold fdata_step. destruct (negb (is_float dt)); [reflexivity|].
+    destruct (match c_fcache st with
+              | Some k => if dtype_eqb (o_dt (get_obj (c_heap st) k)) dt then Some k else None
+              | None => None end); [discriminate|].
+    destruct (if b && negb (is_arr (c_dobj st)) then inr EUnreadable else asanyarray st (Some dt)) as [[h r]|e'];
+      [destruct c; discriminate|reflexivity]. }
+  destruct o; cbn [cstep]; try discriminate; try reflexivity.
+  - apply FD.
+  - apply FD.
+  - destruct (asanyarray st None) as [[h r]|e']; [discriminate|reflexivity].
+  - destruct (getitem st sl) as [[h r]|e']; [discriminate|reflexivity].
+  - destruct (c_last st); [destruct (o_wr _); [discriminate|reflexivity]|reflexivity].
+  - destruct (c_expired st); [reflexivity|]. destruct (c_dcache st); [discriminate|].
+    destruct (asanyarray st None) as [[h r]|e']; [destruct c; discriminate|reflexivity].
+  - destruct (c_dobj st); discriminate.
+Qed.
+
+(* in particular a read that fails because the file cannot be opened leaves the cache, its contents and
+   in_memory as they were, and the next read of the cached dtype still returns the cached array *)
+Lemma failed_read_keeps_cache st c dt k d :
+  wf st -> c_fcache st = Some k -> o_dt (get_obj (c_heap st) k) = d -> is_float d = true ->
+  c_dobj st <> DArr k ->
+  (exists p, c_dobj st = DProxy p) -> d <> dt -> is_float dt = true ->
+  cstep st (FdataBroken c dt) = (st, ORefused EUnreadable)
+  /\ snd (cstep st (GetFdata Unchanged d)) = OArr k
+  /\ snd (cstep st InMemory) = OBool true.
+Proof.
+  intros W Hc Hd Hf _ [p Hp] Hne Hfl. split; [|split].
+  - cbn [cstep]. unfold fdata_step. rewrite Hfl, Hc, Hd, Hp. cbn [negb is_arr andb].
+    destruct (dtype_eqb d dt) eqn:E; [apply dtype_eqb_eq in E; contradiction|reflexivity].
+  - cbn [cstep]. unfold fdata_step. rewrite Hf, Hc, Hd, dtype_eqb_refl. reflexivity.
+  - cbn [cstep]. rewrite Hc. cbn. now rewrite orb_true_r.
 Qed.
